@@ -697,6 +697,23 @@ def check_methods(spec, ctx):
                     for nm2, fn2 in (("empty.to_dict", out.value.to_dict), ("empty.children", lambda: out.value.children), ("empty.to_gff", lambda: list(out.value.to_gff())),
                                      ("empty.query", lambda: out.value.query_by_position()), ("empty.len", lambda: len(out.value)), ("empty.str", lambda: str(out.value))):
                         attempt(ctx, name + "." + nm2, fn2)
+        # a collection built directly with no member at all (a chromosome without annotation yet), with and without a parent: every
+        # question is answered or refused with a documented exception, and the dictionary form round-trips
+        for tag_, p_ in (("no_parent", None), ("same_parent", parent)):
+            try:
+                emp = AnnotationCollection(sequence_name="chr1", parent_or_seq_chunk_parent=p_)
+            except BioCantorException:
+                continue
+            ctx.label("memberless_collection:" + tag_)
+            for nm2, fn2 in (("to_dict", emp.to_dict), ("from_dict(to_dict)", lambda: AnnotationCollection.from_dict(emp.to_dict(), p_)), ("children", lambda: emp.children),
+                             ("to_gff", lambda: list(emp.to_gff())), ("query_by_position", lambda: emp.query_by_position()), ("query_by_position(0,1)", lambda: emp.query_by_position(0, 1)),
+                             ("query_by_guids", lambda: emp.query_by_guids([])), ("len", lambda: len(emp)), ("str", lambda: str(emp)), ("hash", lambda: hash(emp)),
+                             ("is_empty", lambda: emp.is_empty), ("guid", lambda: emp.guid), ("eq", lambda: emp == AnnotationCollection(sequence_name="chr1", parent_or_seq_chunk_parent=p_))):
+                out2 = attempt(ctx, "AnnotationCollection[memberless," + tag_ + "]." + nm2, fn2)
+                if nm2 == "is_empty" and out2.kind == "value":
+                    ctx.eq("memberless_collection_is_empty", out2.value, True)
+                if nm2 == "eq" and out2.kind == "value":
+                    ctx.eq("memberless_collection_equals_its_twin", out2.value, True)
     elif kind == "vc":
         vc = mkvc(o, parent)
         for nm, fn in (("to_dict", vc.to_dict), ("alternative_genomic_sequence", lambda: vc.alternative_genomic_sequence), ("parent_with_alternative_sequence", lambda: vc.parent_with_alternative_sequence),
